@@ -517,11 +517,7 @@ class Update(object):
             masklen = prefix.split('/')[1]
             ip_hex = struct.pack('!I', netaddr.IPNetwork(prefix).value)
             masklen = int(masklen)
-            if 16 < masklen <= 24:
-                ip_hex = ip_hex[0:3]
-            elif 8 < masklen <= 16:
-                ip_hex = ip_hex[0:2]
-            elif masklen <= 8:
-                ip_hex = ip_hex[0:1]
+            # the prefix occupies ceil(masklen / 8) octets, none for a default route
+            ip_hex = ip_hex[0:(masklen + 7) // 8]
             nlri_raw_hex += struct.pack('!B', masklen) + ip_hex
         return nlri_raw_hex
